@@ -203,7 +203,7 @@ def run(ctx):
     import random
     random.Random(5).shuffle(codes)               # balance the chunks; the set of cases is unchanged
     jobs = [{"kind": "grid", "codes": ch} for ch in fnref.chunks(codes, ctx.pick(32, 128))]
-    nrand = ctx.pick(1600, 24000)
+    nrand = ctx.pick(1600, 12000)
     per = ctx.pick(200, 1000)
     jobs += [{"kind": "random", "count": per} for _ in range(nrand // per)]
     ctx.shard(jobs, timeout=ctx.pick(120, 340))
